@@ -7,6 +7,7 @@ INVARIANT WellFormedInv
 INVARIANT PartitionInv
 INVARIANT ThreadInv
 INVARIANT OptionInv
+INVARIANT ValueInv
 INVARIANT WrapperInv
 INVARIANT Emit
 INVARIANT EmitInterface
